@@ -3,6 +3,8 @@ package main
 import (
 	"testing"
 	"time"
+
+	"golang.org/x/tools/go/ssa"
 )
 
 func TestCRCDebug(t *testing.T) {
@@ -34,5 +36,53 @@ func TestCRCLoop(t *testing.T) {
 			t.Logf("%s: init=%s next=%s", p.Comment, showVal(ls.Init[p]), showVal(ls.Next[p]))
 		}
 		t.Logf("cond=%s ret=%s", ls.Cond, showVal(ls.Ret))
+	}
+}
+
+func TestBoundsDbg(t *testing.T) {
+	U = newUniverse()
+	P, err := loadProgram("/repo")
+	if err != nil {
+		t.Fatal(err)
+	}
+	B := newBounds(P)
+	fn, _ := P.Func("packet:(*AdaptationField).OPCR")
+	bf := B.of(fn)
+	for _, b := range fn.Blocks {
+		for _, ins := range b.Instrs {
+			if ci, ok := ins.(ssa.CallInstruction); ok && calleeName(ci) == "github.com/Comcast/gots/v2.ExtractPCR" {
+				a := bf.lenAff(ci.Common().Args[0])
+				t.Logf("len arg = %s ; facts:", bf.affString(a))
+				for _, f := range bf.facts[b] {
+					t.Logf("   %s >= 0", bf.affString(f))
+				}
+			}
+		}
+	}
+	for _, n := range []string{"packet:(*AdaptationField).opcrStart", "packet:(*AdaptationField).pcrLength", "packet:(*AdaptationField).hasPCR"} {
+		f, _ := P.Func(n)
+		t.Logf("%s writeFree=%v", n, B.writeFree(f))
+	}
+}
+
+func TestBoundsDbg2(t *testing.T) {
+	U = newUniverse()
+	P, err := loadProgram("/repo")
+	if err != nil {
+		t.Fatal(err)
+	}
+	B := newBounds(P)
+	fn, _ := P.Func("scte35:(*segmentationDescriptor).parseDescriptor")
+	bf := B.of(fn)
+	for _, li := range findLoopsSSA(fn) {
+		for _, ins := range li.header.Instrs {
+			if phi, ok := ins.(*ssa.Phi); ok {
+				for i, e := range phi.Edges {
+					if li.body[li.header.Preds[i]] {
+						t.Logf("phi %s back edge: %s  aff=%s", phi.Comment, sx(e), bf.affString(bf.affOf(e)))
+					}
+				}
+			}
+		}
 	}
 }
